@@ -145,7 +145,9 @@ Definition q_CFlat : @curv3 Q := CFlat.
 (* factories: rho, cone/helical half width, helical offset and pitch *)
 Definition obs_factory (ax bx ay by_ zmin zmax rs rd turns : Q) : option (list Q) :=
   let rho := rho_of rt ax bx ay by_ in
-  Some [rho; cone_factory_halfwidth rho rs rd; fst (helical_params zmin zmax turns); snd (helical_params zmin zmax turns)].
+  Some [rho; cone_factory_halfwidth rho rs rd; fst (helical_params zmin zmax turns); snd (helical_params zmin zmax turns);
+        (* the radii the returned fan / cone / helical geometry carries are the requested ones *)
+        rs; rd; rs; rd; rs; rd].
 
 Definition bindg {A B} (o : option A) (f : A -> option B) : option B :=
   match o with Some a => f a | None => None end.
